@@ -430,6 +430,13 @@ def gen_selection(rng, sname, tname, depth, budget):
             s.directive = rng.choice([" @include(if: true)", " @skip(if: false)", " @skip(if: $no)",
                                       " @include(if: false)"])
         out.append(s)
+        # the same response key selected again (directly / through an inline fragment / a named
+        # fragment): errors at that position then carry several field nodes
+        if not children and on_type == tname and not s.directive and rng.random() < 0.2:
+            for _ in range(rng.choice([1, 1, 2])):
+                dup = Sel(key, fname, ptype, s.args, [], on_type)
+                dup.wrap = rng.choice([None, "inline", "named"])
+                out.append(dup)
     if not out:
         fname = "id" if "id" in tbl.get(concrete[0], {}) else sorted(tbl[concrete[0]])[0]
         ptype = field_type(sname, concrete[0], fname)
@@ -696,6 +703,29 @@ def _family_corpus():
                  "me/friends/0/id": ["raise_cls", "Denied", [], {"action": "see"}, False]}))
     return out
 
+
+# errors carrying several nodes: one response key selected two or three times (directly, through inline
+# fragments, through spreads) at positions that fail; (schema, text, world)
+MULTI_NODE_CORPUS = [
+    ("A", "{ s s ... on Query { s } ...F }\nfragment F on Query { s }", {"s": ["null"]}),
+    ("A", "{ a\n  a\n  x: argn(x: 2) x: argn(x: 2) }", {"a": ["raise", "twice", {"n": 2}], "x": ["null"]}),
+    ("A", "{ o { s } o { s id } on { id } ... { on { s } } }", {"o/s": ["null"], "on": ["null"]}),
+    ("A", "{ lo { id } lo { id s } ...L }\nfragment L on Query { lo { s tn } }",
+     {"lo/0/s": ["null"], "lo/1/id": ["raise", "item", None], "lo/1/tn": ["value", " "]}),
+    ("A", "{ ln ln tln tln }", {"ln": ["value", [1, None]], "tln": ["value", ["a", ""]]}),
+    ("B", "{ me { id id ... on User { id nick } nick } nodes { id ... on Node { id } } }",
+     {"me/id": ["null"], "me/nick": ["value", ""], "nodes": ["value", [{"__typename__": "Bot"}]], "nodes/0/id": ["null"]}),
+    ("A", "mutation M { fail fail ... on Mutation { fail } }", {"fail": ["null"]}),
+]
+# validation / coercion errors with several nodes
+MULTI_NODE_INVALID = [
+    ("A", "{ x: a x: s }", {}),
+    ("A", "{ o { k: id } o { k: s } x: a ... { x: b } }", {}),
+    ("A", "query Q($v: Int) { arg(x: $v) a: arg(x: $v) ...F }\nfragment F on Query { argn(x: $v) }", {"v": 1}),
+    ("A", "query Q($v: String) { arg(x: $v) argn(x: $v) }", {"v": "s"}),
+    ("A", "{ ...A ...A }\nfragment A on Query { ...B }\nfragment B on Query { ...A a }", {}),
+    ("A", "{ a a @skip(if: true) }\nfragment U on Query { a }\nfragment V on Query { s }", {}),
+]
 
 CUSTOM_SCALAR_CORPUS = [
     # a serializer returning None for a non-null value: null at T!, [T!], [T!]! and nested, one error each
